@@ -126,6 +126,14 @@ class Engine(object):
         self.uf = {}
         self.touched = set()
         self.active_case = None
+        # static ordinals of loops / assignment sites / expression statements, keyed by id(AST node).  Per ENGINE (not per
+        # class): a pool worker verifies many functions one after another, and the id of a collected node of an earlier
+        # function can be reused by an unrelated node of a later one (observed: an Attribute-target assignment picked up a
+        # stale ordinal).  The nodes are kept alive in self._keep for the life of the engine.
+        self._loop_ord = {}
+        self._assign_ord = {}
+        self._expr_ord = {}
+        self._keep = []
         import os as _os
         self.debug = bool(_os.environ.get("PYVC_DEBUG"))
         self.loop_counter = {}
@@ -1689,6 +1697,13 @@ class Engine(object):
                 uses(c, acc)
 
         seen = set()
+        ite_cache = {}
+
+        def has_ite(t):
+            k = t.get_id()
+            if k not in ite_cache:
+                ite_cache[k] = (z3.is_app(t) and t.decl().kind() == z3.Z3_OP_ITE) or any(has_ite(c) for c in t.children())
+            return ite_cache[k]
 
         def walk(t):
             if t.get_id() in seen:
@@ -1701,9 +1716,8 @@ class Engine(object):
                 if idx.get_id() in ids:
                     acc = set()
                     uses(t.arg(0), acc)
-                    if not acc or acc == {idx.get_id()}:
-                        base_ok = True
-                        # the array term must itself be trigger-friendly: no If/arith inside
+                    if (not acc or acc == {idx.get_id()}) and not has_ite(t.arg(0)):
+                        # (the array term must itself be trigger-friendly: z3 rejects an `if` inside a pattern)
                         found.setdefault(idx.get_id(), []).append(t)
             for c in t.children():
                 walk(c)
@@ -2105,7 +2119,7 @@ class Engine(object):
                 for q in ps:
                     nps.extend(self.bind_target(q, ctx, t, v, nl))
                 ps = nps
-            if k is not None and not ctx.spec:
+            if k is not None and not ctx.spec and isinstance(st.targets[0], ast.Name):
                 # ghost: the value given by the k-th assignment statement (source order) to this local stays nameable in
                 # contract text as <name>__<k> (no program value depends on it)
                 for q in ps:
